@@ -120,6 +120,21 @@ def probes() -> list[Item]:
     out.append(Item(Prog(accounts={TARGET: code}, calldata=[Sym("cd0", 256), Sym("cd1", 256)], name="hash-const-minus-one",
                          meta={"bounded_inputs": {"cd0": 2**64, "cd1": 2**64}}),
                     [{"cd0": 1, "cd1": 0}, {"cd0": 5, "cd1": 4}, {"cd0": 5, "cd1": 5}, {"cd0": 0, "cd1": 0}], key="probe:hash-const-minus-one"))
+    # an account with symbolic storage: the transient element m[k] (mapping at slot 1 of symstore.LAYOUT) reads zero, the
+    # persistent element of the same slot reads its unconstrained initial value - in either order, and around a store
+    def m_at(key_code):
+        return key_code + [("PUSH", 0x200), "MSTORE", ("PUSH", 1), ("PUSH", 0x220), "MSTORE", ("PUSH", 64), ("PUSH", 0x200), "SHA3"]
+
+    K = [("PUSH", 0), "CALLDATALOAD"]
+    bodies = {
+        "symstore-tload-then-sload": m_at(K) + ["TLOAD", ("PUSH", 0), "MSTORE"] + m_at(K) + ["SLOAD", ("PUSH", 32), "MSTORE"],
+        "symstore-sload-then-tload": m_at(K) + ["SLOAD", ("PUSH", 0), "MSTORE"] + m_at(K) + ["TLOAD", ("PUSH", 32), "MSTORE"],
+        "symstore-tstore-other-then-sload": [("PUSH", 7)] + m_at([("PUSH", 32), "CALLDATALOAD"]) + ["TSTORE"] + m_at(K) + ["TLOAD", ("PUSH", 0), "MSTORE"] + m_at(K) + ["SLOAD", ("PUSH", 32), "MSTORE"],
+    }
+    for nm, body in bodies.items():
+        code = assemble(body + [("PUSH", 64), ("PUSH", 0), "RETURN"])
+        out.append(Item(Prog(accounts={TARGET: code}, calldata=[Sym("cd0", 256), Sym("cd1", 256)], name=nm, symstore={TARGET}, meta={"symstore_enabled": {TARGET}}),
+                        [{"cd0": 0, "cd1": 0}, {"cd0": 5, "cd1": 4}, {"cd0": 5, "cd1": 5}, {"cd0": 1 << 200, "cd1": 3}], key=f"probe:{nm}"))
     return out
 
 
@@ -152,7 +167,11 @@ def run(chk: Check, tier: str):
         for it in ps:
             it.cli = layout
             it.key = it.key + (":generic" if layout else ":solidity")
-        judge(chk, run_items(ps, chk, witnesses=False))
+        pouts = run_items(ps, chk, witnesses=False)
+        judge(chk, pouts)
+        for o in pouts:
+            if not o.covered and not o.flagged and not o.skipped and not o.match.unevaluable:
+                chk.violation(f"{o.item.key}:uncovered", f"no reported path covers input {o.inp} of {o.item.key}", describe(o))
     chk.cov["programs"] = len(items)
     chk.cov["programs_symbolic_storage"] = nsym
     chk.cov["programs_entirely_unsupported"] = stuck_progs
